@@ -316,131 +316,5 @@ theorem elems_end (buf : Buf) (p : Nat) (xs : List Json) (e : Nat) (h : Elems bu
 theorem ofList_nil (o : Option (List Val)) (e : Nat) : ofList o [] e = (match o with | some vs => .ok vs e | none => .err) := by
   cases o <;> simp [ofList]
 
-/-- **an array value, for every type that looks at the text itself** -/
-theorem arr_base (buf : Buf) (s e : Nat) (xs : List Json) (hb : buf[s]? = some 91)
-    (hshape : (xs = [] ∧ buf[skipWs buf (s + 1)]? = some 93 ∧ e = skipWs buf (s + 1) + 1) ∨ Elems buf (skipWs buf (s + 1)) xs e) :
-    ∀ f ty i, cov ty = true → direct ty = true → skipWs buf i = s → de f ty buf i ≠ .fuel →
-      Stab buf ty (.arr xs) e (de f ty buf i) := by
-  intro f ty i hcov hdir hs hne
-  cases f with
-  | zero => exact absurd (by rw [de]) hne
-  | succ f =>
-    have hsp := skipSpace_at buf i s 91 hs hb
-    have hE : Entry buf (s + 1) true (skipWs buf (s + 1)) := Or.inl ⟨rfl, rfl⟩
-    cases ty with
-    | seq t =>
-      have hct : cov t = true := by simpa [cov] using hcov
-      rw [de] at hne ⊢
-      simp only [hsp, beq_self_eq_true, if_true] at hne ⊢
-      rcases hshape with ⟨rfl, hcl, rfl⟩ | hel
-      · cases f with
-        | zero => exact absurd (by rw [seqLoop]) hne
-        | succ f =>
-          cases f with
-          | zero => exact absurd (by rw [seqLoop, nextElem]) hne
-          | succ f =>
-            rw [seqLoop, nextElem_end buf f t (s + 1) true hcl]
-            simp only [endSeq_at buf _ _ (by rw [skipWs_idem]; exact hcl), skipWs_idem]
-            refine ⟨2, ?_⟩
-            intro g hg
-            obtain ⟨g', rfl⟩ : ∃ g', g = g' + 2 := ⟨g - 2, by omega⟩
-            simp [decode, decodeList, sequenceOpt, ofOpt]
-      · have hne2 : seqLoop f t buf (s + 1) true [] ≠ .fuel := by
-          intro h; rw [h] at hne; exact hne rfl
-        obtain ⟨g0, hg0⟩ := seqLoop_elems buf t hct _ xs e hel f (s + 1) true [] hE hne2
-        obtain ⟨hend1, hend2⟩ := elems_end buf _ xs e hel
-        refine ⟨g0 + 1, ?_⟩
-        intro g hg
-        obtain ⟨g', rfl⟩ : ∃ g', g = g' + 1 := ⟨g - 1, by omega⟩
-        rw [hg0 g' (by omega), ofList_nil]
-        simp only [decode]
-        cases sequenceOpt (decodeList buf g' t xs) with
-        | none => rfl
-        | some vs => simp [ofOpt, endSeq_at buf _ _ hend1, hend2]
-    | bytes =>
-      rw [de] at hne ⊢
-      have e1 : ((91 : UInt8) == 34) = false := by decide
-      simp only [hsp, e1, Bool.false_eq_true, if_false, beq_self_eq_true, if_true] at hne ⊢
-      rcases hshape with ⟨rfl, hcl, rfl⟩ | hel
-      · cases f with
-        | zero => exact absurd (by rw [seqLoop]) hne
-        | succ f =>
-          cases f with
-          | zero => exact absurd (by rw [seqLoop, nextElem]) hne
-          | succ f =>
-            rw [seqLoop, nextElem_end buf f _ (s + 1) true hcl]
-            simp only [endSeq_at buf _ _ (by rw [skipWs_idem]; exact hcl), skipWs_idem]
-            refine ⟨2, ?_⟩
-            intro g hg
-            obtain ⟨g', rfl⟩ : ∃ g', g = g' + 2 := ⟨g - 2, by omega⟩
-            simp [decode, decodeList, sequenceOpt, ofOpt]
-      · have hne2 : seqLoop f (.int 8 false) buf (s + 1) true [] ≠ .fuel := by
-          intro h; rw [h] at hne; exact hne rfl
-        obtain ⟨g0, hg0⟩ := seqLoop_elems buf (.int 8 false) (by simp [cov]) _ xs e hel f (s + 1) true [] hE hne2
-        obtain ⟨hend1, hend2⟩ := elems_end buf _ xs e hel
-        refine ⟨g0 + 1, ?_⟩
-        intro g hg
-        obtain ⟨g', rfl⟩ : ∃ g', g = g' + 1 := ⟨g - 1, by omega⟩
-        rw [hg0 g' (by omega), ofList_nil]
-        simp only [decode]
-        cases sequenceOpt (decodeList buf g' (.int 8 false) xs) with
-        | none => rfl
-        | some vs =>
-          simp [ofOpt, endSeq_at buf _ _ hend1, hend2]
-          intro a _; cases a <;> rfl
-    | tuple ts =>
-      have hcts : covL ts = true := by simpa [cov] using hcov
-      rw [de] at hne ⊢
-      simp only [hsp, beq_self_eq_true, if_true] at hne ⊢
-      rcases hshape with ⟨rfl, hcl, rfl⟩ | hel
-      · cases f with
-        | zero => exact absurd (by rw [tupleLoop]) hne
-        | succ f =>
-          cases ts with
-          | nil =>
-            rw [tupleLoop]
-            simp only [endSeq_at buf _ _ hcl]
-            refine ⟨2, ?_⟩
-            intro g hg
-            obtain ⟨g', rfl⟩ : ∃ g', g = g' + 2 := ⟨g - 2, by omega⟩
-            simp [decode, decodeZip, sequenceOpt, ofOpt]
-          | cons t ts' =>
-            cases f with
-            | zero => exact absurd (by rw [tupleLoop, nextElem]) hne
-            | succ f =>
-              rw [tupleLoop, nextElem_end buf f t (s + 1) true hcl]
-              exact stab_err _ _ _ _ (by intro g; simp [decode])
-      · have hne2 : tupleLoop f ts buf (s + 1) true [] ≠ .fuel := by
-          intro h; rw [h] at hne; exact hne rfl
-        obtain ⟨g0, hg0⟩ := tupleLoop_elems buf _ xs e hel ts hcts f (s + 1) true [] hE hne2
-        refine ⟨g0 + 1, ?_⟩
-        intro g hg
-        obtain ⟨g', rfl⟩ : ∃ g', g = g' + 1 := ⟨g - 1, by omega⟩
-        have := hg0 g' (by omega)
-        have hgoal : tupleEnd buf (tupleLoop f ts buf (s + 1) true []) = ofOpt (decode buf (g' + 1) (.tuple ts) (.arr xs)) e := by
-          rw [this]
-          simp only [decode, ofZip]
-          by_cases hl : xs.length = ts.length
-          · simp only [hl, decide_true, if_true]
-            cases sequenceOpt (decodeZip buf g' ts xs) with
-            | none => rfl
-            | some vs => simp [ofOpt]
-          · simp [hl, ofOpt]
-        rw [← hgoal]
-        cases tupleLoop f ts buf (s + 1) true [] <;> rfl
-    | opt t => simp [direct] at hdir
-    | newtype t => simp [direct] at hdir
-    | strRef => simp [cov] at hcov
-    | struct fs d => simp [cov] at hcov
-    | enum vs => simp [cov] at hcov
-    | int bits sg =>
-      have h64 : bits ≤ 64 := by simpa [cov] using hcov
-      rw [de]; simp [h64, deInt, hsp, isDigit]
-      exact stab_err _ _ _ _ (by intro g; simp [decode])
-    | _ =>
-      rw [de]
-      simp [hsp, deF64, deStrRaw, hb, hs, isDigit]
-      exact stab_err _ _ _ _ (by intro g; simp [decode])
-
 end De
 end Sonic
